@@ -195,6 +195,19 @@ CLAIMED = {
         note=BASE_NOTE + "Modelled, not verified: the rest of scanRawToken (word and operator scanning).",
         technique="Coq proof on a layout-scanner model + exhaustive correspondence over the layout alphabet + metamorphic layout pairs",
         design="5 C09"),
+    "C05": dict(
+        text=("Partial. Proved: the printer's here-document placement. Model (Print/Heredocs.v): push / redir / newline / heredoc / suspend of "
+              "printer.go as operations on a stack of levels (bodies being written, suspended contexts), and the lexer's reading rule as a reader of "
+              "the emitted events. Theorem, for every operation sequence (any nesting of levels and multi-line expansions, any placement of newlines, "
+              "expansions printed in the middle of a body): if it runs without fault and leaves nothing open, each here-document is read back exactly "
+              "once, by the lexer that saw its announcement, at the first newline after it, in announcement order. Tie on every run: the operations the "
+              "real printer performed (hook printer.VerifHook) are replayed on the extracted model, the events must be the model's, no fault, nothing "
+              "left open, reader accepts (here-document corpus + generated programs x 3 Configs). Token level: C02's completeness. NOT modelled / not "
+              "proved: word quoting, separators and layout under the 256 styles; decided on every run by the round trip itself: generated programs + "
+              "corpora x 16 pairwise-covering Configs (every 16th and the corpus: all 256): the printed text must be accepted with the same skeleton."),
+        note=BASE_NOTE + "Modelled, not verified: the printer apart from its here-document bookkeeping.",
+        technique="Coq invariant proof on the printer's here-document bookkeeping + operation-replay correspondence + print/parse round trip under all styles",
+        design="5 C05"),
     "C19": dict(
         text=("Proved: Option.String is total on every bit combination (loop bound translated from the source on every run). NOT proved: totality of "
               "printer / Pos / End / Expand on parser-produced ASTs and of Eval / Match / Glob on arbitrary strings; decided on every run in isolated "
@@ -207,13 +220,6 @@ CLAIMED = {
 }
 
 EXPLORATION = {
-    "C05": dict(
-        text=("No theorem yet (the printer model is under construction). Decided on every run, implementation side: generated programs (every compound "
-              "construct, here-documents inside them, comments, reserved words after closing tokens) x 16 pairwise-covering Configs (every 16th: all 256): "
-              "the printed text is accepted and has the same skeleton (';' ~ newline, adjacent literals merged)."),
-        note="Implementation-side metamorphic test; no model.",
-        technique="exploration: print -> parse round trip under all styles (no proof yet)",
-        design="5 C05"),
 }
 
 def hook_commits():
